@@ -99,6 +99,11 @@ func (e *c19ex) Exec(op string) string {
 			return "bad-op"
 		}
 		return okErr(e.c.Do(wd.Issuer, "setRate", w[1], w[2], w[3]))
+	case "delrate":
+		if !need(3) {
+			return "bad-op"
+		}
+		return okErr(e.c.Do(wd.Issuer, "deleteRate", w[1], w[2]))
 	case "setlimits":
 		if !need(5) {
 			return "bad-op"
@@ -137,6 +142,33 @@ func (e *c19ex) Exec(op string) string {
 			return "err:decode:" + p
 		}
 		return r.Fee
+	case "feetransfer":
+		if !need(4) || u(1) == nil || u(2) == nil {
+			return "bad-op"
+		}
+		req, _ := json.Marshal(map[string]string{"sender_address": u(1).Addr, "recipient_address": u(2).Addr, "amount": w[3]})
+		p, errs := e.c.Query("getFeeTransfer", string(req))
+		if errs != "" {
+			return "err"
+		}
+		var r struct {
+			FeeAddress string `json:"fee_address"`
+			Amount     string `json:"amount"`
+			Currency   string `json:"currency"`
+		}
+		if err := json.Unmarshal([]byte(p), &r); err != nil {
+			return "err:decode:" + p
+		}
+		fa := "?" + r.FeeAddress
+		for _, n := range c19names {
+			if e.user(n).Addr == r.FeeAddress {
+				fa = n
+			}
+		}
+		if r.Amount == "" {
+			r.Amount = "0"
+		}
+		return r.Amount + "/" + r.Currency + "/" + fa
 	case "bal":
 		var parts []string
 		for _, n := range c19names {
@@ -233,8 +265,16 @@ func genC19(c *Cfg, emit func([]string)) {
 				h = append(h, "buy "+pick(users...)+" "+pick("1", "10", "50", "100", "101", "1000", "0")+" "+pick("USD", "USD", "EUR"))
 			case 1:
 				h = append(h, "buyback "+pick(users...)+" "+pick("1", "10", "50", "100", "1000")+" USD")
+			case 3:
+				if c.Rng.Intn(3) == 0 {
+					// a rate withdrawn (or set again) in the middle: later fees and deals must follow
+					h = append(h, pick("delrate buyToken USD", "delrate buyBack USD", "delrate buyToken EUR", "delrate buyToken VT", "delrate nope USD", "setrate buyToken USD 50000000"))
+				}
+				f, t := pick(users...), pick("u0", "u1", "u2", "u3", "F", "I")
+				h = append(h, "transfer "+f+" "+t+" "+amts[c.Rng.Intn(len(amts))])
 			case 2:
 				h = append(h, "predict "+amts[c.Rng.Intn(len(amts))])
+				h = append(h, "feetransfer "+pick(users...)+" "+pick("u0", "u1", "u2", "u3", "F")+" "+amts[c.Rng.Intn(len(amts))])
 			default:
 				f, t := pick(users...), pick("u0", "u1", "u2", "u3", "F", "I")
 				h = append(h, "transfer "+f+" "+t+" "+amts[c.Rng.Intn(len(amts))])
